@@ -399,7 +399,7 @@ class Intervals:
         if isinstance(t, int):
             return self.tr[t]
         if t[0] == "L":
-            return (0, ISIZE_MAX)
+            return self.term_tr.get(t, (0, ISIZE_MAX))
         tr = self.term_tr.get(t)
         fk = self.term_field.get(t)
         if fk is not None:
@@ -735,7 +735,12 @@ class Intervals:
                         st.iv[(l, 0)] = clamp_to(m, otr)
                     else:
                         st.iv[(l, 0)] = otr
-                    st.iv[(l, 1)] = (0, 0) if (m is not None and fits(m, otr)) else (0, 1)
+                    if m is not None and fits(m, otr):
+                        st.iv[(l, 1)] = (0, 0)
+                    elif m is not None and (m[1] < otr[0] or m[0] > otr[1]):
+                        st.iv[(l, 1)] = (1, 1)      # always overflows: the Assert never passes
+                    else:
+                        st.iv[(l, 1)] = (0, 1)
                 st.ovf[l] = (base, rv[2], rv[3], ta, tb, a, b)
                 return
             if op in NEG:
@@ -799,6 +804,15 @@ class Intervals:
                     new_iv = tr
             elif tr is not None:
                 new_iv = tr
+            elif str(rv[1]).startswith("PointerCoercion") and "Unsize" in str(rv[1]) and len(rv) > 4:
+                # &[T; N] -> &[T]: the slice behind the new pointer has the array's length
+                m = re.search(r"; (\d+)\]$", rv[4])
+                if m:
+                    # the length term is keyed by where the *source* pointer points (the destination copies it)
+                    lt = self.len_term(rv[2])
+                    if lt is not None:
+                        n = int(m.group(1))
+                        self.term_tr[lt] = (n, n)
         elif k == "disc":
             if not rv[1][1]:
                 new_disc = rv[1][0]
@@ -1150,6 +1164,33 @@ class Intervals:
                     nr = NEWTYPE_RANGES[atys[0].lstrip("&")]
                     if nr[0] <= tr[1] and nr[1] >= tr[0]:
                         new = clamp_to(nr, tr)
+            elif c.endswith("as core::default::Default>::default") and not args_ops:
+                new = (0, 0)
+            elif short == "clone" and "Clone" in c and len(args_ops) == 1 and op_local(args_ops[0]) is not None:
+                # clone of an integer behind a reference: the value stored there
+                tgt = self._ptr_target(op_local(args_ops[0]))
+                if tgt is not None and tgt[2]:
+                    pt = ("P", tgt[0], tgt[1]) if tgt[1] else tgt[0]
+                    if not isinstance(pt, int):
+                        # learn the field from the reference's definition
+                        sdr = self.body.single_def(op_local(args_ops[0]))
+                        cur = op_local(args_ops[0])
+                        for _ in range(5):
+                            sdr = self.body.single_def(cur)
+                            if sdr is None or isinstance(sdr[2], Term) or sdr[2][0] != "ref":
+                                break
+                            fk = self.place_field(sdr[2][2])
+                            if fk is not None:
+                                self.term_field.setdefault(pt, fk)
+                                break
+                            if sdr[2][2][1] == ["*"]:
+                                cur = sdr[2][2][0]
+                            else:
+                                break
+                        self.term_tr.setdefault(pt, tr)
+                    r0 = self.trng(st, pt) if not isinstance(pt, int) else st.iv.get(pt, self.tr[pt])
+                    if r0 is not None:
+                        new = r0
             elif short in ("pow",) and len(args) == 2 and args[0] is not None and args[1] is not None and args[0][0] >= 0 and args[1][1] < 200:
                 try:
                     new = (args[0][0] ** args[1][0], args[0][1] ** args[1][1])
@@ -1199,9 +1240,10 @@ class Intervals:
                 itr = ty_range(m2.group(1))
                 if args[0][0] <= itr[1] and args[0][1] >= itr[0]:
                     payloads.append(((("d", 0), ("f", 0)), clamp_to(args[0], itr), itr, []))
-            if dty.startswith("core::result::Result<usize, usize>") and short.startswith("binary_search"):
-                payloads.append(((("d", 0), ("f", 0)), (0, ISIZE_MAX - 1), (0, (1 << 64) - 1), []))
-                payloads.append(((("d", 1), ("f", 0)), (0, ISIZE_MAX), (0, (1 << 64) - 1), []))
+            if dty.startswith("core::result::Result<usize, usize>") and c.startswith("core::slice::<impl [T]>::binary_search"):
+                lt = self.len_term(args_ops[0]) if args_ops else None
+                payloads.append(((("d", 0), ("f", 0)), (0, ISIZE_MAX - 1), (0, (1 << 64) - 1), [("<", lt)] if lt is not None else []))
+                payloads.append(((("d", 1), ("f", 0)), (0, ISIZE_MAX), (0, (1 << 64) - 1), [("<=", lt)] if lt is not None else []))
             if short == "next" and "Enumerate" in c and "slice::iter::Iter" in (d.get("cargs") or "") and dty.startswith("core::option::Option<(usize,"):
                 payloads.append(((("d", 1), ("f", 0), ("f", 0)), (0, ISIZE_MAX - 1), (0, (1 << 64) - 1), []))
         new_vf = self._variant_facts(st, c, short, args_ops, atys, args, arg_terms, self.body.locals[l][0])
@@ -1220,14 +1262,14 @@ class Intervals:
             a = l if a == "D" else a
             b = l if b == "D" else b
             if a is not None and b is not None and a != b:
-                st.rel.add((a, o, b))
+                self.add_rel(st, a, o, b)
         for path, iv, itr, rl in payloads:
             t = ("P", l, path)
             self.term_tr[t] = itr
             st.iv[t] = iv
             for o, other in rl:
                 if other is not None:
-                    st.rel.add((t, o, other))
+                    self.add_rel(st, t, o, other)
 
     GET_RE = re.compile(r"^core::slice::<impl \[T\]>::(get|get_mut)$")
     READ_AT_RE = re.compile(r"^read_fonts::font_data::FontData::<'a>::(read_at|read_be_at|read_ref_at)$")
@@ -1269,9 +1311,25 @@ class Intervals:
                         return (1, v[1], v[2])
         return None
 
+    def add_rel(self, st, a, o, b):
+        """record a (o) b and tighten the two intervals accordingly; False if that is contradictory"""
+        if a is None or b is None or a == b:
+            return True
+        st.rel.add((a, o, b))
+        ra, rb = self.trng(st, a) if not isinstance(a, int) else st.iv.get(a, self.tr[a]), \
+            self.trng(st, b) if not isinstance(b, int) else st.iv.get(b, self.tr[b])
+        d = 1 if o == "<" else 0
+        ok = True
+        if rb is not None:
+            ok = self._narrow_term(st, a, (-INF, rb[1] - d)) and ok
+        if ra is not None:
+            ok = self._narrow_term(st, b, (ra[0] + d, INF)) and ok
+        return ok
+
     def _apply_variant_facts(self, st, v):
         for (a, o, b) in v[1]:
-            st.rel.add((a, o, b))
+            if not self.add_rel(st, a, o, b):
+                return False
         for (t, lo, hi) in v[2]:
             if not self._narrow_term(st, t, (lo, hi)):
                 return False
@@ -1315,6 +1373,9 @@ class Intervals:
                 # after a passed assert the condition holds
                 s2 = st
                 cl = op_local(t.d[1])
+                cr0 = self.rng(st, t.d[1])
+                if cr0 is not None and cr0[0] == cr0[1] and cr0[0] != (1 if t.d[2] else 0):
+                    continue      # the assertion fails on every path reaching it: no successor
                 if cl is not None and cl in st.cmp:
                     s2 = st.copy()
                     c = st.cmp[cl]
